@@ -41,6 +41,11 @@ const extraPreamble = `(declare-fun str_contains (Str Str) Bool)
 (declare-fun inrange (Iface Iface) Bool)
 (declare-fun sep_count (Slice) (_ BitVec 64))
 (declare-fun str_join_ (Int (_ BitVec 64) (_ BitVec 64) Str) Str)
+(declare-fun flag_bool (Int Str) Bool)
+(declare-fun flag_set (Int Str) Bool)
+(declare-fun flag_str (Int Str) Str)
+(declare-fun flag_int (Int Str) (_ BitVec 64))
+(declare-fun flag_strs (Int Str) Slice)
 (define-fun str_join ((s Slice) (sep Str)) Str (str_join_ (sbase s) (soff s) (slen_ s) sep))
 `
 
